@@ -329,25 +329,34 @@ def spatial_work(inp):
             else:
                 q = {"c": [], "v": []}
 
+                dt = float if inp.get("float_pos", True) else int       # real distributions return float arrays
+
                 def cd():
-                    return np.array(q["c"].pop(0) if q["c"] else [0, 0])
+                    return np.array(q["c"].pop(0) if q["c"] else [0, 0], dtype=dt)
 
                 if inp["model"] == "spatial":
                     def vd():
-                        return np.array(q["v"].pop(0) if q["v"] else [0, 0])
+                        return np.array(q["v"].pop(0) if q["v"] else [0, 0], dtype=dt)
                     g = bg.Spatial(candidates=cands, voter_dist=vd, voter_dist_kwargs={}, candidate_dist=cd, candidate_dist_kwargs={},
                                    **({"distance": l1} if metric == "l1" else {}))
                     q["c"], q["v"] = [list(p) for p in cpos], [list(p) for p in vpos]
                     pp, cp, vp = g.generate_profile(len(vpos))
                 else:
                     def normal(loc=0, **kw):                            # offsets around the candidate the voter belongs to
-                        return np.asarray(loc) + np.array(q["v"].pop(0) if q["v"] else [0, 0])
+                        return np.asarray(loc) + np.array(q["v"].pop(0) if q["v"] else [0, 0], dtype=dt)
                     g = bg.ClusteredSpatial(candidates=cands, voter_dist=normal, voter_dist_kwargs={}, candidate_dist=cd, candidate_dist_kwargs={},
                                             **({"distance": l1} if metric == "l1" else {}))
                     q["c"], q["v"] = [list(p) for p in cpos], [list(p) for p in vpos]
                     pp, cp, vp = g.generate_profile_with_dict(dict(zip(cands, inp["per_cand"])))
                 t["cpos"] = [[c, [int(round(float(x))) for x in cp[c]]] for c in cands]
                 t["vpos"] = [[int(round(float(x))) for x in row] for row in np.asarray(vp).reshape(len(vp), -1)]
+        # positions are logged relative to the translation of the input (an exact integer shift; distances do not depend on it), so that
+        # the logged coordinates stay inside TLC's exact range
+        off = inp.get("off") or [0] * 8
+        t["cpos"] = [[c, [x - off[k] for k, x in enumerate(pos)]] for c, pos in t["cpos"]]
+        t["vpos"] = [[x - (0 if inp["model"] == "clustered" else off[k]) for k, x in enumerate(pos)] for pos in t["vpos"]]
+        if inp["model"] == "clustered":
+            t["vpos"] = [[x - off[k] for k, x in enumerate(pos)] for pos in t["vpos"]]
         t["law"] = [[json.loads(_bag(pp, None)), 1, 1]]
     except Exception as ex:  # noqa
         t["error"] = type(ex).__name__
@@ -492,14 +501,16 @@ def grid(tier, seed):
     for i in range(3):
         two("nameBT_mcmc", S32 if not q else S31, "X", T3, i, 2, 2, other_coh=H)
     # spatial models: integer grid positions, ties included
-    for _ in range(150 if q else 3000):
+    for _ in range(240 if q else 4000):
         model = rnd.choice(["spatial1d", "spatial", "clustered"])
         nc = rnd.randint(2, 4)
         cands = ["A", "B", "C", "D"][:nc]
         dim = 1 if model == "spatial1d" else 2
         span = rnd.choice([2, 3, 6])
-        cpos = [[rnd.randint(-span, span) for _ in range(dim)] for _ in cands]
-        p = {"model": model, "cands": cands, "cpos": cpos, "metric": "l2" if model == "spatial1d" else rnd.choice(["l2", "l1"])}
+        # the whole configuration translated far from the origin (map-like coordinates): distances, hence rankings, do not change
+        off = [rnd.choice([0, 0, 1000, -10**6, 10**8, 10**9, -2 * 10**9]) for _ in range(dim)]
+        cpos = [[rnd.randint(-span, span) + off[k] for k in range(dim)] for _ in cands]
+        p = {"model": model, "cands": cands, "cpos": cpos, "off": off, "metric": "l2" if model == "spatial1d" else rnd.choice(["l2", "l1"])}
         if model == "clustered":
             per = [rnd.randint(0, 2) for _ in cands]
             while sum(per) == 0 or sum(per) > 4:
@@ -508,7 +519,8 @@ def grid(tier, seed):
             nv = sum(per)
         else:
             nv = rnd.randint(1, 4)
-        p["vpos"] = [[rnd.randint(-span, span) for _ in range(dim)] for _ in range(nv)]
+        p["vpos"] = [[rnd.randint(-span, span) + (0 if model == "clustered" else off[k]) for k in range(dim)] for _ in range(nv)]
+        p["float_pos"] = rnd.random() < 0.8
         pts.append(p)
     if not q:
         for p in pts:
